@@ -91,8 +91,15 @@ def body():
         ]
         configs = [("same grid, whole", gA, gA, "all", "all"), ("same grid, segment", gA, gA, "seg", "seg"), ("same grid, non-prefix support", gA, gA, "sup", "seg"),
                    ("different grids", gA, gB, "all", "all"), ("different grids, segments", gA, gB, "sup", "seg")]
-        for cname, gd, gt, vd, vt in configs if not quick else configs[:1] + configs[2:3] + configs[4:]:
-            api.clear_fmm_cache()
+        runs = [(4, c) for c in (configs if not quick else configs[:1] + configs[2:3] + configs[4:])]
+        if not quick:   # quadrature orders set globally (without clearing the caches in between: the keys must tell the orders apart)
+            runs += [(2, configs[2]), (6, configs[4]), (3, configs[1])]
+        for gorder, (cname, gd, gt, vd, vt) in runs:
+            api.GLOBAL_PARAMETERS.quadrature.regular = gorder
+            if gorder == 4:
+                api.clear_fmm_cache()
+            else:
+                cname = cname + ", global regular order %d" % gorder
             sd, st = spaces(gd, vd), spaces(gt, vt)
             for name, fac, kd, kt in fams if not quick or cname != "different grids, segments" else fams[::2]:
                 label = "%s (%s -> %s), %s" % (name, kd, kt, cname)
@@ -122,6 +129,7 @@ def body():
                             chk.violation("fmm_vs_dense:%s:%s" % (name, cname.replace(" ", "_")), "%s: fmm and dense potentials differ by %.3g" % (label, e_), {"case": label})
                     except Exception as exc:
                         chk.violation("fmm_vs_dense:%s:exception" % name, "%s: %s: %s" % (label, type(exc).__name__, str(exc)[:160]), {"case": label})
+        api.GLOBAL_PARAMETERS.quadrature.regular = 4
         # ---- barycentric and dual spaces: the dense assembler rejects spaces with dof transformations, so the dense counterpart is
         # D_test' A_plain D_trial with A_plain the dense operator on the element-wise spaces of the barycentric grid (as in C10)
         gC = api.Grid(V, E)
